@@ -123,4 +123,18 @@ CHECKS = {
                      "or torn at sector granularity; creates, renames, size changes and unlinks persist in order",
                      "bounded variant enumeration per crash point"],
     ),
+    "C06": dict(
+        test="TestC06", level="exploration", shards=16, cmds=["mkwork", "mkrestart"], engine="crash-engine",
+        tiers=dict(quick=dict(checks=2, timeout=900), thorough=dict(checks=40, timeout=3400, env=dict(VERIF_MUTATIONS=30))),
+        technique="structured mutation fuzzing of real WAL files, fresh-process replay, model oracle",
+        env=dict(VERIF_SHRINK="5s"),
+        rule="a valid WAL is produced by really executing a generated history (state: WAL synced, primary files not yet "
+             "written); rapid draws byte-level mutations biased to record and field boundaries: truncate, 1-3 bit flips, "
+             "overwrite/insert garbage runs, duplicate a record, swap two records, corrupt a length field (negative, "
+             "tiny, huge), checksum-valid adversarial contents (WT count, path length, data length, path, record type); "
+             "a fresh process performs the production start-up replay; oracle: exit 0 without panic/hang, no tag of a "
+             "transaction whose data bytes changed appears, every intact committed transaction ending before the first "
+             "changed byte is applied; non-trivial = mutation that changes a TGDATA record or a length/ordering",
+        assumptions=["one transaction group per write request (sync mode) so that WAL byte ranges map to requests"],
+    ),
 }
